@@ -10,6 +10,8 @@ def exec (st : State) (toks : List String) : State × List String :=
     match unhxList hs with
     | some heads => ({ st with iso := (r, heads) :: st.iso.filter (fun p => p.1 != r), txs := st.txs.filter (fun p => p.1 != r) }, ["ok"])
     | none => (st, ["bad-input"])
+  -- direct oracle of the harness on the implementation alone (C29): nothing to predict
+  | ["crdt.x.isocheck", _] => (st, ["ok"])
   | ["crdt.x.integrate", r] =>
     ({ st with iso := st.iso.filter (fun p => p.1 != r), txs := st.txs.filter (fun p => p.1 != r) }, ["ok"])
   -- crdt.x.migrate r r2 : r2 := load(save r) with StringMigration::ConvertToText; the migration
